@@ -22,7 +22,7 @@ def make_cases(rng, tier, n):
     cases, stats = [], {}
     for c_i in range(n):
         ns = rng.choice([2, 3, 3, 4] + ([5, 6] if tier == "thorough" else []))
-        c = gen.pipeline_project(rng, "hist-%d" % c_i, ns, tier=tier, lossy=0.3, dir_sources=0.25)
+        c = gen.pipeline_project(rng, "hist-%d" % c_i, ns, tier=tier, lossy=0.3, dir_sources=1.0 if c_i % 10 == 4 else 0.25)
         edges = c["edges"]
         names = [sp for sp, st in c["stages"]]
         srcs = {}
@@ -44,6 +44,13 @@ def make_cases(rng, tier, n):
         srclen = {e[1]: int(e[2].split(":")[2]) for e in c["init"] if e[0] == "file" and e[2].startswith("g:")}
         lossy = [i for i in srcs if c["stages"][i][1]["cmd"].startswith(b"vlen ")]
         nev = rng.randrange(3, 7 if tier == "quick" else 16)
+        if c_i % 10 == 4 and dirsrc:
+            # the manifest of a plain directory input is not in the local cache (a fresh clone that fetched only what it needed, a
+            # pruned cache, another `cache:` setting) and the directory's content differs from what was committed: the stage is stale
+            i = sorted(dirsrc)[(c_i // 10) % len(dirsrc)]
+            ops += [("commit", rng.choice("lc"), []), ("rmobj", "r" + dirsrc[i].hex()),
+                    ("write", dirsrc[i] + b"/late%d.txt" % c_i, "g:%d:6" % rng.randrange(1000)), ("run", False, [])]
+            hist.append("dir-input-manifest-lost")
         for _ in range(nev):
             ev = rng.choice(["edit_src", "edit_src", "edit_def", "damage", "delete", "run_all", "run_all", "run_t", "run_s", "commit_after_run",
                              "run_commit_run", "partial", "edit_ws", "same_len"])
